@@ -436,15 +436,16 @@ class Checker:
     def named_standard_crossover(self, case, pts, outs, uspec, ml):
         p1, p2 = pts[0], pts[1]
         c = outs[0]
-        cands = []
-        for (donor, host) in ((p1, p2), (p2, p1)):
-            for a in range(size(donor)):
-                for b in range(size(host)):
-                    e = replace_at(host, b, sub_at(donor, a))
-                    cands.append(e if depth(e) <= ml else host)
-        if c not in cands:
-            return ("child is not 'one subtree of one parent spliced at one point of the other (or that other parent when too deep)'",)
         u = self._draws(case, "U")
+        if size(p1) * size(p2) <= 150 or len(u) != 3:     # existential form (all transplants) on small parents
+            cands = []
+            for (donor, host) in ((p1, p2), (p2, p1)):
+                for a in range(size(donor)):
+                    for b in range(size(host)):
+                        e = replace_at(host, b, sub_at(donor, a))
+                        cands.append(e if depth(e) <= ml else host)
+            if c not in cands:
+                return ("child is not 'one subtree of one parent spliced at one point of the other (or that other parent when too deep)'",)
         if len(u) == 3:
             a, b = int(math.floor(size(p1) * u[0])), int(math.floor(size(p2) * u[1]))
             donor, da, host, hb = (p1, a, p2, b) if u[2] < 0.5 else (p2, b, p1, a)
@@ -811,9 +812,11 @@ def rand_tree(rng, uspec, max_depth):
 
 def generated(ctx, rep, ck):
     """random trees to depth 6, tuples of 2..7 parents, fitness / rank with ties and zeros;
-    seeded: log-mode mirror first, then the compiled library under the same seed"""
+    seeded: every call first as log-mode mirror (one library patch for the whole family), then — only when
+    the mirror returned normally — the compiled library under the same seed"""
     rng = ctx.rng
     L_ = lib()
+    plan = []
     for it in range(ctx.pick(60, 600)):
         arities = rng.choice([(1, 2), (1, 2, 3), (2, 3), (1, 2, 3, 4), (3,), (2, 4)])
         uspec = rand_uniset(rng, arities)
@@ -833,43 +836,49 @@ def generated(ctx, rep, ck):
         ops = [(op, ps) for op in CROSSOVERS] + [(op, ps[:1]) for op in MUTATIONS]
         ops += [(op, []) for op in ("full_growing_method", "growing_method", "random_tree", "half_and_half")]
         for op, pp in ops:
-            if op == "uniform_tournament_crossover_GP" and k < 2:
-                continue
-            seed = rng.randrange(1 << 30)
-            proba = rng.choice([0.0, 0.5, 1.0, 1.0, 1.5])
-            iml = rng.randint(2, 4) if op == "half_and_half" else (rng.randint(0, 4) if not pp else ml)
-            pop = 3 if op == "half_and_half" else 0
-            trees = [L_.tree(p[0]) for p in pp]
+            plan.append(dict(op=op, pp=pp, uspec=uspec, uni=uni, fit=fit, rk=rk, seed=rng.randrange(1 << 30),
+                             proba=rng.choice([0.0, 0.5, 1.0, 1.0, 1.5]),
+                             ml=rng.randint(2, 4) if op == "half_and_half" else (rng.randint(0, 4) if not pp else ml),
+                             pop=3 if op == "half_and_half" else 0))
+    # ---- mirror (log mode)
+    with MR.patched_library():
+        for c in plan:
+            trees = [L_.tree(p[0]) for p in c["pp"]]
             snap = [L_.enc(t) for t in trees]
-            MR.seed(seed)
-            with MR.patched_library():
-                MR.TAPE.start_log()
-                try:
-                    om, err = L_.call(op, trees, fit, rk, iml, pop, proba, uni), None
-                except (IndexError, ValueError, ZeroDivisionError, AssertionError) as e:
-                    om, err = None, f"{type(e).__name__}: {e}"
-                log = list(MR.TAPE.log)
+            MR.seed(c["seed"])
+            MR.TAPE.start_log()
             try:
-                script = to_script(log)
-            except ValueError:
-                continue
-            rep.traces += 1
-            case = ck.case("generated", op, snap, fit if pp and op in CROSSOVERS else [], rk if pp and op in CROSSOVERS else [],
-                           iml, pop, proba, uspec, script, om, err, extra=dict(seed=seed))
-            rep.hist("parents", len(pp))
-            if [L_.enc(t) for t in trees] != snap:
-                rep.problem("generated", f"{op}: a parent was modified in place", case, f"{op}:parents-modified", True, None, snap,
-                            "C08_parents_unmodified")
-                continue
-            if om is None:
-                continue            # the mirror raised: the compiled helper would read out of bounds — not executed
-            MR.seed(seed)
-            oc = L_.call(op, [L_.tree(p[0]) for p in pp], fit, rk, iml, pop, proba, uni)
-            if [L_.enc(o) for o in oc] != [L_.enc(o) for o in om]:
-                rep.problem("seeded", f"compiled {op} and log-mode mirror disagree under the same seed", case,
-                            "seeded:compiled-vs-mirror", False, [L_.enc(o) for o in oc], [L_.enc(o) for o in om])
-        if it == 0:
-            rep.sample(case)
+                om, err = L_.call(c["op"], trees, c["fit"], c["rk"], c["ml"], c["pop"], c["proba"], c["uni"]), None
+            except (IndexError, ValueError, ZeroDivisionError, AssertionError) as e:
+                om, err = None, f"{type(e).__name__}: {e}"
+            c.update(om=om, err=err, log=list(MR.TAPE.log), snap=snap, same=[L_.enc(t) for t in trees] == snap)
+    # ---- predicate, model, compiled
+    first = None
+    for c in plan:
+        op, pp = c["op"], c["pp"]
+        try:
+            script = to_script(c["log"])
+        except ValueError:
+            continue
+        rep.traces += 1
+        cx = bool(pp) and op in CROSSOVERS
+        case = ck.case("generated", op, c["snap"], c["fit"] if cx else [], c["rk"] if cx else [], c["ml"], c["pop"], c["proba"],
+                       c["uspec"], script, c["om"], c["err"], extra=dict(seed=c["seed"]))
+        first = first or case
+        rep.hist("parents", len(pp))
+        if not c["same"]:
+            rep.problem("generated", f"{op}: a parent was modified in place", case, f"{op}:parents-modified", True, None, c["snap"],
+                        "C08_parents_unmodified")
+            continue
+        if c["om"] is None:
+            continue            # the mirror raised: the compiled helper would read out of bounds — not executed
+        MR.seed(c["seed"])
+        oc = L_.call(op, [L_.tree(p[0]) for p in pp], c["fit"], c["rk"], c["ml"], c["pop"], c["proba"], c["uni"])
+        if [L_.enc(o) for o in oc] != [L_.enc(o) for o in c["om"]]:
+            rep.problem("seeded", f"compiled {op} and log-mode mirror disagree under the same seed", case,
+                        "seeded:compiled-vs-mirror", False, [L_.enc(o) for o in oc], [L_.enc(o) for o in c["om"]])
+    if first:
+        rep.sample(first)
 
 
 # =========================================================================== harvested
